@@ -121,4 +121,18 @@ theorem mempoolTryGetValue_eq (mp : Mempool.Pool) (h : Nat) (code : Int) :
   unfold GoFuncs.mempoolTryGetValue Mempool.tryGetValue
   cases (mp.vmap h).isSome <;> rfl
 
+/-- `Blockchain.verifyAndPoolTx`, translated: `verifyTxAttributes` is called before `pool.Add` - when it returns an
+error, the outcome is not "ok" whatever `pool.Add` would say (the pool is not even asked: the label returned is the
+attribute error). So every transaction that reaches `Pool.Add` has passed the attribute verification, whose
+ConflictsT case rejects repeated Conflicts hashes (Proofs/MempoolAdmit.lean). -/
+theorem pool_add_after_attributes (a1 : Bool) (h : Int) (dn : Bool) (vub inc : Int) (pe : Bool) (size fpb attr net : Int)
+    (b1 b2 b3 b4 pa c1 c2 c3 c4 c5 : Bool) :
+    GoFuncs.verifyAndPoolTx a1 h dn vub inc pe size fpb attr net b1 b2 b3 b4 true pa c1 c2 c3 c4 c5 ≠ "ok" := by
+  intro hres
+  unfold GoFuncs.verifyAndPoolTx at hres
+  dsimp only at hres
+  simp only [↓reduceIte] at hres
+  repeat' split at hres
+  all_goals (revert hres; decide)
+
 end NeoModel.GoFuncsTie
